@@ -202,12 +202,13 @@ def pbkdf2_tasks(quick):
                           ("pbkdf2", label, ("asc", p), ("seed", s), 1000, "list", tuple(_bound(h)))))
             # ... and every dkLen on one shape (thorough), cut in pieces to spread the work
             if not quick:
-                p, s = (blk + 1, blk + 1) if label != "prf:CMAC-AES" else (32, 17)
+                shapes = [(blk + 1, blk + 1), (blk, 1), (200, 0)] if label != "prf:CMAC-AES" else [(32, 17), (16, 0)]
                 step = max(8, (3 * h + 1) // 6)
-                for lo in range(1, 3 * h + 2, step):
-                    rg = (lo, min(lo + step - 1, 3 * h + 1))
-                    T.append((_pb_cost(label, 1000, range(rg[0], rg[1] + 1), path),
-                              ("pbkdf2", label, ("asc", p), ("seed", s), 1000, "range", rg)))
+                for (p, s) in shapes:
+                    for lo in range(1, 3 * h + 2, step):
+                        rg = (lo, min(lo + step - 1, 3 * h + 1))
+                        T.append((_pb_cost(label, 1000, range(rg[0], rg[1] + 1), path),
+                                  ("pbkdf2", label, ("asc", p), ("seed", s), 1000, "range", rg)))
         T.append((0.02, ("pbkdf2-values", label)))
     T.append((0.05, ("pbkdf2-misc",)))
     return T
@@ -228,21 +229,26 @@ def t_pbkdf2_values(t, acc):
             pbkdf2_line(label, mk((pk, pl), "pbkdf2-pwv"), mk((sk, 16), "pbkdf2-saltv"), 2, [h + 1], acc)
 
 
+def check_pbkdf2_default(pw, salt, acc):
+    from Crypto.Protocol import KDF
+    acc.count("evaluations")
+    pwb, sb = as_bytes(pw), as_bytes(salt)
+    exp = hashlib.pbkdf2_hmac("sha1", pwb, sb, 1000, 16)
+    case = {"part": "pbkdf2-default", "pw": pw, "salt": salt}
+    r = run_lib(lambda: KDF.PBKDF2(pw, salt))
+    what = "PBKDF2(%r, %r) with default dkLen/count/hash" % (pw, salt)
+    if r[0] == "exc":
+        raised(acc, "C12/pbkdf2/defaults", what, case, r[1])
+    else:
+        cmp_bytes(acc, "C12/pbkdf2/defaults", what, case, r[1], exp)
+    acc.seen("classes", ("pbkdf2", "defaults", type(pw).__name__, r[0]))
+
+
 def t_pbkdf2_misc(t, acc):
     """defaults (HMAC-SHA1, dkLen 16, count 1000), text inputs (Latin-1), observations"""
     from Crypto.Protocol import KDF
     for pw, salt in ((b"password", b"salt"), ("p\xe4ssword", "s\xe4lt"), ("", b"\x00" * 8)):
-        acc.count("evaluations")
-        pwb, sb = as_bytes(pw), as_bytes(salt)
-        exp = hashlib.pbkdf2_hmac("sha1", pwb, sb, 1000, 16)
-        case = {"part": "pbkdf2-default", "pw": pw, "salt": salt}
-        r = run_lib(lambda: KDF.PBKDF2(pw, salt))
-        what = "PBKDF2(%r, %r) with default dkLen/count/hash" % (pw, salt)
-        if r[0] == "exc":
-            raised(acc, "C12/pbkdf2/defaults", what, case, r[1])
-        else:
-            cmp_bytes(acc, "C12/pbkdf2/defaults", what, case, r[1], exp)
-        acc.seen("classes", ("pbkdf2", "defaults", type(pw).__name__, r[0]))
+        check_pbkdf2_default(pw, salt, acc)
         for label in ("SHA1", "SHA3_256", "prf:HMAC-SHA256"):
             pbkdf2_line(label, pw, salt, 3, [1, 33, 70], acc)
     # observations only: parameters the property text does not name
@@ -250,6 +256,13 @@ def t_pbkdf2_misc(t, acc):
         r = run_lib(lambda: KDF.PBKDF2(b"p", b"s", 20, 0, **kw))
         acc.observe("PBKDF2 count=0 on the %s path: %s" % (
             label, ("returns %d bytes" % len(r[1])) if r[0] == "ok" else "refused with " + type(r[1]).__name__))
+    from Crypto.Hash import BLAKE2b, BLAKE2s
+    for name, hm in (("BLAKE2b module", BLAKE2b), ("BLAKE2b.new(digest_bits=256) object", BLAKE2b.new(digest_bits=256)),
+                     ("BLAKE2s.new(digest_bits=256) object", BLAKE2s.new(digest_bits=256))):
+        r = run_lib(lambda: KDF.PBKDF2(b"p", b"s", 20, 1, hmac_hash_module=hm))
+        acc.observe("PBKDF2 with hmac_hash_module=%s: %s" % (
+            name, "accepted (NOT compared with a reference)" if r[0] == "ok" else
+            "not usable with HMAC (%s)" % type(r[1]).__name__))
     r = run_lib(lambda: KDF.PBKDF2(b"p", b"s", 20, 1, prf=_lib_prf("prf:HMAC-SHA256"),
                                    hmac_hash_module=lib_hash("SHA256")))
     acc.observe("PBKDF2 with both prf and hmac_hash_module: %s" % (
@@ -596,7 +609,40 @@ def sp108_tasks(quick):
                         continue
                     T.append(((0.03 if quick else 0.08) * h / 32 * (4 if label.startswith("CMAC") else 1),
                               ("sp108", label, ml, li, ci, quick)))
+    T.append((0.01, ("sp108-misc",)))
     return T
+
+
+class _Captured(Exception):
+    pass
+
+
+def t_sp108_misc(t, acc):
+    """observation only: total length >= 2^32 bits does not fit the [L]_32 field the library uses"""
+    from Crypto.Protocol import KDF
+    for kl, nk in ((2 ** 29 - 1, None), (2 ** 29, None), (2 ** 27, 4)):
+        seen = []
+
+        def prf(k, x):
+            seen.append(bytes(x))
+            raise _Captured()
+        acc.count("evaluations")
+        r = run_lib(lambda: KDF.SP800_108_Counter(b"k" * 16, kl, prf, nk, b"L", b"C"))
+        bits = kl * (nk or 1) * 8
+        if seen:
+            tail = seen[0][4 + 1 + 1 + 1:]
+            res = "prf called with a %d-byte length field %s" % (len(tail), tail.hex())
+            exp = bits.to_bytes(4, "big") if bits < 2 ** 32 else None
+            if exp is not None and tail != exp:
+                acc.violation("C12/sp800-108/wrong-length-field",
+                              "SP800_108_Counter(key_len=%d, num_keys=%r): PRF input ends with %s, expected [L]_32 = %s"
+                              % (kl, nk, tail.hex(), exp.hex()),
+                              {"part": "sp108-misc"})
+        else:
+            res = "refused with %s" % type(r[1]).__name__ if r[0] == "exc" else "returned without calling the prf"
+        acc.seen("classes", ("sp108", "L-field", bits >= 2 ** 32, res))
+        if bits >= 2 ** 32:
+            acc.observe("SP800_108_Counter with L = %d bits (>= 2^32, does not fit [L]_32): %s" % (bits, res))
 
 
 def t_sp108(t, acc):
